@@ -121,6 +121,9 @@ func cmdHist(args []string) int {
 	if f.Extra["features"] == "pcev" {
 		prof.Features = []Feat{allOn, {true, true, false, false, false}, {true, true, true, false, true}}
 	}
+	if f.Extra["profile"] == "postings" {
+		prof.PostingsHeavy = true
+	}
 	if f.Extra["adversarial"] == "1" {
 		prof.AdversarialKV = true
 	}
